@@ -1,8 +1,1494 @@
-//! C09 — not implemented yet (stub).
-use crate::engine::Opts;
-pub fn main(_opts: &Opts) -> i32 {
-    eprintln!("C09: check not implemented");
-    2
+//! C09 — IRI validation is exactly RFC 3987 and agrees with the resolver.
+//!
+//! Oracle: `rfc` below = (1) a literal transcription of the RFC 3987 / RFC 3986 ABNF into a
+//! data structure interpreted by a set-of-positions matcher (so alternatives are explored
+//! exhaustively: no first-match-wins artefacts), and (2) the RFC 3986 section 5.2 reference
+//! resolution algorithm (Appendix B split, 5.2.2 transform, 5.2.3 merge, 5.2.4
+//! remove_dot_segments, 5.3 recomposition). Neither uses `regex`, `oxiri` or sophia.
+use crate::engine::*;
+use proptest::prelude::*;
+use serde::{Deserialize, Serialize};
+use serde_json::{json, Value};
+
+pub mod rfc {
+    use std::collections::BTreeMap;
+    use std::sync::LazyLock;
+
+    /// ABNF element.
+    #[derive(Clone, Debug)]
+    pub enum G {
+        /// quoted string: case-insensitive (RFC 5234 section 2.3)
+        L(&'static str),
+        /// %xLO-HI
+        R(u32, u32),
+        /// concatenation
+        S(Vec<G>),
+        /// alternatives
+        A(Vec<G>),
+        /// <min>*<max> repetition
+        N(usize, Option<usize>, Box<G>),
+        /// rule reference
+        Ref(&'static str),
+    }
+    use G::*;
+    fn l(s: &'static str) -> G {
+        L(s)
+    }
+    fn r(lo: u32, hi: u32) -> G {
+        R(lo, hi)
+    }
+    fn seq<const K: usize>(v: [G; K]) -> G {
+        S(v.into_iter().collect())
+    }
+    fn alt<const K: usize>(v: [G; K]) -> G {
+        A(v.into_iter().collect())
+    }
+    fn opt(g: G) -> G {
+        N(0, Some(1), Box::new(g))
+    }
+    fn star(g: G) -> G {
+        N(0, None, Box::new(g))
+    }
+    fn plus(g: G) -> G {
+        N(1, None, Box::new(g))
+    }
+    fn rep(min: usize, max: usize, g: G) -> G {
+        N(min, Some(max), Box::new(g))
+    }
+    fn rule(n: &'static str) -> G {
+        Ref(n)
+    }
+
+    /// The grammar: RFC 3987 section 2.2 plus the rules it imports from RFC 3986 appendix A
+    /// and RFC 5234 appendix B. Rules whose name starts with "gen:" are NOT part of the RFC: they
+    /// only feed the generator with near-miss material.
+    pub static GRAMMAR: LazyLock<BTreeMap<&'static str, G>> = LazyLock::new(|| {
+        let mut m = BTreeMap::new();
+        let q = || opt(seq([l("?"), rule("iquery")]));
+        let f = || opt(seq([l("#"), rule("ifragment")]));
+        let segs = || star(seq([l("/"), rule("isegment")]));
+        // IRI = scheme ":" ihier-part [ "?" iquery ] [ "#" ifragment ]
+        m.insert("IRI", seq([rule("scheme"), l(":"), rule("ihier-part"), q(), f()]));
+        // ihier-part = "//" iauthority ipath-abempty / ipath-absolute / ipath-rootless / ipath-empty
+        m.insert(
+            "ihier-part",
+            alt([
+                seq([l("//"), rule("iauthority"), rule("ipath-abempty")]),
+                rule("ipath-absolute"),
+                rule("ipath-rootless"),
+                rule("ipath-empty"),
+            ]),
+        );
+        // IRI-reference = IRI / irelative-ref
+        m.insert("IRI-reference", alt([rule("IRI"), rule("irelative-ref")]));
+        // absolute-IRI = scheme ":" ihier-part [ "?" iquery ]
+        m.insert("absolute-IRI", seq([rule("scheme"), l(":"), rule("ihier-part"), q()]));
+        // irelative-ref = irelative-part [ "?" iquery ] [ "#" ifragment ]
+        m.insert("irelative-ref", seq([rule("irelative-part"), q(), f()]));
+        // irelative-part = "//" iauthority ipath-abempty / ipath-absolute / ipath-noscheme / ipath-empty
+        m.insert(
+            "irelative-part",
+            alt([
+                seq([l("//"), rule("iauthority"), rule("ipath-abempty")]),
+                rule("ipath-absolute"),
+                rule("ipath-noscheme"),
+                rule("ipath-empty"),
+            ]),
+        );
+        // iauthority = [ iuserinfo "@" ] ihost [ ":" port ]
+        m.insert(
+            "iauthority",
+            seq([opt(seq([rule("iuserinfo"), l("@")])), rule("ihost"), opt(seq([l(":"), rule("port")]))]),
+        );
+        // iuserinfo = *( iunreserved / pct-encoded / sub-delims / ":" )
+        m.insert("iuserinfo", star(alt([rule("iunreserved"), rule("pct-encoded"), rule("sub-delims"), l(":")])));
+        // ihost = IP-literal / IPv4address / ireg-name
+        m.insert("ihost", alt([rule("IP-literal"), rule("IPv4address"), rule("ireg-name")]));
+        // ireg-name = *( iunreserved / pct-encoded / sub-delims )
+        m.insert("ireg-name", star(alt([rule("iunreserved"), rule("pct-encoded"), rule("sub-delims")])));
+        // ipath-abempty = *( "/" isegment )
+        m.insert("ipath-abempty", segs());
+        // ipath-absolute = "/" [ isegment-nz *( "/" isegment ) ]
+        m.insert("ipath-absolute", seq([l("/"), opt(seq([rule("isegment-nz"), segs()]))]));
+        // ipath-noscheme = isegment-nz-nc *( "/" isegment )
+        m.insert("ipath-noscheme", seq([rule("isegment-nz-nc"), segs()]));
+        // ipath-rootless = isegment-nz *( "/" isegment )
+        m.insert("ipath-rootless", seq([rule("isegment-nz"), segs()]));
+        // ipath-empty = 0<ipchar>
+        m.insert("ipath-empty", seq([]));
+        // isegment = *ipchar ; isegment-nz = 1*ipchar
+        m.insert("isegment", star(rule("ipchar")));
+        m.insert("isegment-nz", plus(rule("ipchar")));
+        // isegment-nz-nc = 1*( iunreserved / pct-encoded / sub-delims / "@" )
+        m.insert("isegment-nz-nc", plus(alt([rule("iunreserved"), rule("pct-encoded"), rule("sub-delims"), l("@")])));
+        // ipchar = iunreserved / pct-encoded / sub-delims / ":" / "@"
+        m.insert("ipchar", alt([rule("iunreserved"), rule("pct-encoded"), rule("sub-delims"), l(":"), l("@")]));
+        // iquery = *( ipchar / iprivate / "/" / "?" )
+        m.insert("iquery", star(alt([rule("ipchar"), rule("iprivate"), l("/"), l("?")])));
+        // ifragment = *( ipchar / "/" / "?" )
+        m.insert("ifragment", star(alt([rule("ipchar"), l("/"), l("?")])));
+        // iunreserved = ALPHA / DIGIT / "-" / "." / "_" / "~" / ucschar
+        m.insert("iunreserved", alt([rule("ALPHA"), rule("DIGIT"), l("-"), l("."), l("_"), l("~"), rule("ucschar")]));
+        // ucschar
+        m.insert(
+            "ucschar",
+            alt([
+                r(0xA0, 0xD7FF),
+                r(0xF900, 0xFDCF),
+                r(0xFDF0, 0xFFEF),
+                r(0x10000, 0x1FFFD),
+                r(0x20000, 0x2FFFD),
+                r(0x30000, 0x3FFFD),
+                r(0x40000, 0x4FFFD),
+                r(0x50000, 0x5FFFD),
+                r(0x60000, 0x6FFFD),
+                r(0x70000, 0x7FFFD),
+                r(0x80000, 0x8FFFD),
+                r(0x90000, 0x9FFFD),
+                r(0xA0000, 0xAFFFD),
+                r(0xB0000, 0xBFFFD),
+                r(0xC0000, 0xCFFFD),
+                r(0xD0000, 0xDFFFD),
+                r(0xE1000, 0xEFFFD),
+            ]),
+        );
+        // iprivate = %xE000-F8FF / %xF0000-FFFFD / %x100000-10FFFD
+        m.insert("iprivate", alt([r(0xE000, 0xF8FF), r(0xF0000, 0xFFFFD), r(0x100000, 0x10FFFD)]));
+        // ---- RFC 3986
+        // scheme = ALPHA *( ALPHA / DIGIT / "+" / "-" / "." )
+        m.insert("scheme", seq([rule("ALPHA"), star(alt([rule("ALPHA"), rule("DIGIT"), l("+"), l("-"), l(".")]))]));
+        // port = *DIGIT
+        m.insert("port", star(rule("DIGIT")));
+        // IP-literal = "[" ( IPv6address / IPvFuture ) "]"
+        m.insert("IP-literal", seq([l("["), alt([rule("IPv6address"), rule("IPvFuture")]), l("]")]));
+        // IPvFuture = "v" 1*HEXDIG "." 1*( unreserved / sub-delims / ":" )
+        m.insert(
+            "IPvFuture",
+            seq([l("v"), plus(rule("HEXDIG")), l("."), plus(alt([rule("unreserved"), rule("sub-delims"), l(":")]))]),
+        );
+        // IPv6address
+        let h16c = || seq([rule("h16"), l(":")]);
+        let pre = |n: usize| opt(seq([rep(0, n, h16c()), rule("h16")])); // [ *n( h16 ":" ) h16 ]
+        m.insert(
+            "IPv6address",
+            alt([
+                //                            6( h16 ":" ) ls32
+                seq([rep(6, 6, h16c()), rule("ls32")]),
+                //                       "::" 5( h16 ":" ) ls32
+                seq([l("::"), rep(5, 5, h16c()), rule("ls32")]),
+                // [               h16 ] "::" 4( h16 ":" ) ls32
+                seq([opt(rule("h16")), l("::"), rep(4, 4, h16c()), rule("ls32")]),
+                // [ *1( h16 ":" ) h16 ] "::" 3( h16 ":" ) ls32
+                seq([pre(1), l("::"), rep(3, 3, h16c()), rule("ls32")]),
+                // [ *2( h16 ":" ) h16 ] "::" 2( h16 ":" ) ls32
+                seq([pre(2), l("::"), rep(2, 2, h16c()), rule("ls32")]),
+                // [ *3( h16 ":" ) h16 ] "::"    h16 ":"   ls32
+                seq([pre(3), l("::"), h16c(), rule("ls32")]),
+                // [ *4( h16 ":" ) h16 ] "::"              ls32
+                seq([pre(4), l("::"), rule("ls32")]),
+                // [ *5( h16 ":" ) h16 ] "::"              h16
+                seq([pre(5), l("::"), rule("h16")]),
+                // [ *6( h16 ":" ) h16 ] "::"
+                seq([pre(6), l("::")]),
+            ]),
+        );
+        // h16 = 1*4HEXDIG
+        m.insert("h16", rep(1, 4, rule("HEXDIG")));
+        // ls32 = ( h16 ":" h16 ) / IPv4address
+        m.insert("ls32", alt([seq([rule("h16"), l(":"), rule("h16")]), rule("IPv4address")]));
+        // IPv4address = dec-octet "." dec-octet "." dec-octet "." dec-octet
+        m.insert(
+            "IPv4address",
+            seq([rule("dec-octet"), l("."), rule("dec-octet"), l("."), rule("dec-octet"), l("."), rule("dec-octet")]),
+        );
+        // dec-octet = DIGIT / %x31-39 DIGIT / "1" 2DIGIT / "2" %x30-34 DIGIT / "25" %x30-35
+        m.insert(
+            "dec-octet",
+            alt([
+                rule("DIGIT"),
+                seq([r(0x31, 0x39), rule("DIGIT")]),
+                seq([l("1"), rep(2, 2, rule("DIGIT"))]),
+                seq([l("2"), r(0x30, 0x34), rule("DIGIT")]),
+                seq([l("25"), r(0x30, 0x35)]),
+            ]),
+        );
+        // pct-encoded = "%" HEXDIG HEXDIG
+        m.insert("pct-encoded", seq([l("%"), rule("HEXDIG"), rule("HEXDIG")]));
+        // unreserved = ALPHA / DIGIT / "-" / "." / "_" / "~"
+        m.insert("unreserved", alt([rule("ALPHA"), rule("DIGIT"), l("-"), l("."), l("_"), l("~")]));
+        // sub-delims
+        m.insert(
+            "sub-delims",
+            alt([l("!"), l("$"), l("&"), l("'"), l("("), l(")"), l("*"), l("+"), l(","), l(";"), l("=")]),
+        );
+        // ---- RFC 5234
+        m.insert("ALPHA", alt([r(0x41, 0x5A), r(0x61, 0x7A)]));
+        m.insert("DIGIT", r(0x30, 0x39));
+        m.insert("HEXDIG", alt([rule("DIGIT"), l("A"), l("B"), l("C"), l("D"), l("E"), l("F")]));
+
+        // ---- generator-only material (never used by the recogniser's verdicts)
+        m.insert(
+            "gen:ipv6ish",
+            rep(
+                1,
+                10,
+                alt([rule("h16"), l(":"), l("::"), seq([rule("h16"), l(":")]), seq([l(":"), rule("h16")]), rule("IPv4address"), l(".")]),
+            ),
+        );
+        m.insert("gen:ipv4ish", seq([rep(1, 3, rule("DIGIT")), rep(2, 4, seq([l("."), rep(0, 3, rule("DIGIT"))]))]));
+        m.insert(
+            "gen:octetish",
+            alt([
+                l("0"), l("9"), l("10"), l("99"), l("100"), l("199"), l("200"), l("249"), l("250"), l("255"), l("256"), l("259"),
+                l("260"), l("299"), l("300"), l("00"), l("01"), l("001"), l("1000"), l(""), rule("dec-octet"),
+            ]),
+        );
+        m.insert(
+            "gen:ipv4near",
+            seq([rule("gen:octetish"), l("."), rule("gen:octetish"), l("."), rule("gen:octetish"), l("."), rule("gen:octetish")]),
+        );
+        m.insert("gen:pctish", seq([l("%"), rep(0, 2, alt([rule("HEXDIG"), l("g"), l("%")]))]));
+        m.insert(
+            "gen:junkseg",
+            star(alt([rule("ipchar"), rule("gen:pctish"), rule("iprivate"), l("["), l("]"), l(" "), l("<"), l("\\"), l("^"), l("|")])),
+        );
+        m
+    });
+
+    /// All end positions of matches of `g` starting from any position in `from` (sorted, unique).
+    pub fn ends(g: &G, s: &[char], from: &[usize]) -> Vec<usize> {
+        match g {
+            L(lit) => {
+                let lc: Vec<char> = lit.chars().collect();
+                from.iter()
+                    .filter(|&&p| {
+                        p + lc.len() <= s.len()
+                            && lc.iter().zip(&s[p..]).all(|(a, b)| a.eq_ignore_ascii_case(b))
+                    })
+                    .map(|&p| p + lc.len())
+                    .collect()
+            }
+            R(lo, hi) => from
+                .iter()
+                .filter(|&&p| p < s.len() && (*lo..=*hi).contains(&(s[p] as u32)))
+                .map(|&p| p + 1)
+                .collect(),
+            S(items) => {
+                let mut cur = from.to_vec();
+                for it in items {
+                    if cur.is_empty() {
+                        break;
+                    }
+                    cur = ends(it, s, &cur);
+                }
+                cur
+            }
+            A(items) => {
+                let mut out: Vec<usize> = vec![];
+                for it in items {
+                    out.extend(ends(it, s, from));
+                }
+                out.sort_unstable();
+                out.dedup();
+                out
+            }
+            N(min, max, inner) => {
+                let mut out: Vec<usize> = if *min == 0 { from.to_vec() } else { vec![] };
+                let mut cur = from.to_vec();
+                let mut i = 0usize;
+                loop {
+                    if let Some(mx) = max {
+                        if i >= *mx {
+                            break;
+                        }
+                    }
+                    if i > min + s.len() + 1 {
+                        break;
+                    }
+                    cur = ends(inner, s, &cur);
+                    if cur.is_empty() {
+                        break;
+                    }
+                    i += 1;
+                    if i >= *min {
+                        out.extend(cur.iter().copied());
+                    }
+                }
+                out.sort_unstable();
+                out.dedup();
+                out
+            }
+            Ref(name) => ends(GRAMMAR.get(name).unwrap_or_else(|| panic!("no rule {name}")), s, from),
+        }
+    }
+
+    /// Does the whole of `text` match `rule_name`?
+    pub fn matches(rule_name: &str, text: &str) -> bool {
+        let s: Vec<char> = text.chars().collect();
+        let g = GRAMMAR.get(rule_name).unwrap_or_else(|| panic!("no rule {rule_name}"));
+        ends(g, &s, &[0]).contains(&s.len())
+    }
+    pub fn is_iri(text: &str) -> bool {
+        matches("IRI", text)
+    }
+    pub fn is_relative_ref(text: &str) -> bool {
+        matches("irelative-ref", text)
+    }
+    pub fn is_iri_reference(text: &str) -> bool {
+        matches("IRI-reference", text)
+    }
+
+    // ------------------------------------------------------------ generation from the grammar
+
+    /// A tape of random choices; exhausted tape = always choice 0 (first alternative, fewest repetitions).
+    pub struct Tape<'a> {
+        pub t: &'a [u32],
+        pub i: usize,
+    }
+    impl Tape<'_> {
+        pub fn next(&mut self, n: usize) -> usize {
+            let v = self.t.get(self.i).copied().unwrap_or(0);
+            self.i += 1;
+            (v as usize) % n.max(1)
+        }
+    }
+
+    /// Random derivation of `g`, with boundary-biased choices for ranges and repetition counts.
+    pub fn derive(g: &G, tape: &mut Tape, out: &mut String, depth: usize) {
+        match g {
+            L(lit) => {
+                if lit.chars().any(|c| c.is_ascii_alphabetic()) && tape.next(3) == 1 {
+                    // ABNF strings are case-insensitive
+                    for c in lit.chars() {
+                        out.push(if c.is_ascii_uppercase() { c.to_ascii_lowercase() } else { c.to_ascii_uppercase() });
+                    }
+                } else {
+                    out.push_str(lit);
+                }
+            }
+            R(lo, hi) => {
+                let span = hi - lo;
+                let v = match tape.next(7) {
+                    0 => *lo,
+                    1 => *hi,
+                    2 => lo + 1u32.min(span),
+                    3 => hi - 1u32.min(span),
+                    _ => lo + (tape.next(1 << 30) as u32) % (span + 1),
+                };
+                out.push(char::from_u32(v).unwrap_or('a'));
+            }
+            S(items) => {
+                for it in items {
+                    derive(it, tape, out, depth + 1);
+                }
+            }
+            A(items) => {
+                let k = if depth > 200 { 0 } else { tape.next(items.len()) };
+                derive(&items[k], tape, out, depth + 1);
+            }
+            N(min, max, inner) => {
+                let cap = max.unwrap_or(min + 4);
+                let n = match tape.next(6) {
+                    0 => *min,
+                    1 => (min + 1).min(cap),
+                    2 => cap,
+                    3 => (min + 2).min(cap),
+                    4 => min + tape.next(cap - min + 1),
+                    _ => cap.saturating_sub(1).max(*min),
+                };
+                let n = if depth > 200 { *min } else { n };
+                for _ in 0..n {
+                    derive(inner, tape, out, depth + 1);
+                }
+            }
+            Ref(name) => derive(GRAMMAR.get(name).unwrap_or_else(|| panic!("no rule {name}")), tape, out, depth + 1),
+        }
+    }
+    pub fn derive_rule(name: &str, tape: &mut Tape, out: &mut String) {
+        derive(GRAMMAR.get(name).unwrap_or_else(|| panic!("no rule {name}")), tape, out, 0)
+    }
+
+    // ------------------------------------------------------------ RFC 3986 section 5.2
+
+    #[derive(Clone, Debug, PartialEq, Eq)]
+    pub struct Parts<'a> {
+        pub scheme: Option<&'a str>,
+        pub authority: Option<&'a str>,
+        pub path: &'a str,
+        pub query: Option<&'a str>,
+        pub fragment: Option<&'a str>,
+    }
+
+    /// Appendix B: ^(([^:/?#]+):)?(//([^/?#]*))?([^?#]*)(\?([^#]*))?(#(.*))?
+    pub fn split(s: &str) -> Parts<'_> {
+        let mut rest = s;
+        let mut scheme = None;
+        // (([^:/?#]+):)?
+        if let Some(i) = rest.find([':', '/', '?', '#']) {
+            if i > 0 && rest[i..].starts_with(':') {
+                scheme = Some(&rest[..i]);
+                rest = &rest[i + 1..];
+            }
+        }
+        // (//([^/?#]*))?
+        let mut authority = None;
+        if let Some(r2) = rest.strip_prefix("//") {
+            let e = r2.find(['/', '?', '#']).unwrap_or(r2.len());
+            authority = Some(&r2[..e]);
+            rest = &r2[e..];
+        }
+        // ([^?#]*)
+        let e = rest.find(['?', '#']).unwrap_or(rest.len());
+        let path = &rest[..e];
+        rest = &rest[e..];
+        // (\?([^#]*))?
+        let mut query = None;
+        if let Some(r2) = rest.strip_prefix('?') {
+            let e = r2.find('#').unwrap_or(r2.len());
+            query = Some(&r2[..e]);
+            rest = &r2[e..];
+        }
+        // (#(.*))?
+        let fragment = rest.strip_prefix('#');
+        Parts { scheme, authority, path, query, fragment }
+    }
+
+    /// 5.2.4
+    pub fn remove_dot_segments(path: &str) -> String {
+        let mut input: String = path.to_string();
+        let mut output = String::new();
+        fn drop_last_segment(output: &mut String) {
+            // "removing the last segment and its preceding "/" (if any) from the output buffer"
+            match output.rfind('/') {
+                Some(i) => output.truncate(i),
+                None => output.clear(),
+            }
+        }
+        while !input.is_empty() {
+            if input.starts_with("../") {
+                // A
+                input.drain(..3);
+            } else if input.starts_with("./") {
+                input.drain(..2);
+            } else if input.starts_with("/./") {
+                // B
+                input.drain(..2);
+            } else if input == "/." {
+                input = "/".into();
+            } else if input.starts_with("/../") {
+                // C
+                input.drain(..3);
+                drop_last_segment(&mut output);
+            } else if input == "/.." {
+                input = "/".into();
+                drop_last_segment(&mut output);
+            } else if input == "." || input == ".." {
+                // D
+                input.clear();
+            } else {
+                // E: first path segment incl. the initial "/" (if any) up to, not including, the next "/"
+                let start = if input.starts_with('/') { 1 } else { 0 };
+                let e = input[start..].find('/').map(|i| i + start).unwrap_or(input.len());
+                output.push_str(&input[..e]);
+                input.drain(..e);
+            }
+        }
+        output
+    }
+
+    /// 5.2.3
+    pub fn merge(base: &Parts, rpath: &str) -> String {
+        if base.authority.is_some() && base.path.is_empty() {
+            format!("/{rpath}")
+        } else {
+            match base.path.rfind('/') {
+                Some(i) => format!("{}{}", &base.path[..=i], rpath),
+                None => rpath.to_string(),
+            }
+        }
+    }
+
+    #[derive(Clone, Debug, PartialEq, Eq)]
+    pub struct Target {
+        pub scheme: String,
+        pub authority: Option<String>,
+        pub path: String,
+        pub query: Option<String>,
+        pub fragment: Option<String>,
+    }
+    impl Target {
+        /// 5.3
+        pub fn recompose(&self) -> String {
+            let mut r = String::new();
+            r.push_str(&self.scheme);
+            r.push(':');
+            if let Some(a) = &self.authority {
+                r.push_str("//");
+                r.push_str(a);
+            }
+            r.push_str(&self.path);
+            if let Some(q) = &self.query {
+                r.push('?');
+                r.push_str(q);
+            }
+            if let Some(f) = &self.fragment {
+                r.push('#');
+                r.push_str(f);
+            }
+            r
+        }
+    }
+
+    /// 5.2.2 (strict parser). `base` must have a scheme.
+    pub fn transform(base: &str, reference: &str) -> Target {
+        let b = split(base);
+        let r = split(reference);
+        let o = |x: Option<&str>| x.map(str::to_string);
+        let (scheme, authority, path, query);
+        if let Some(rs) = r.scheme {
+            scheme = rs.to_string();
+            authority = o(r.authority);
+            path = remove_dot_segments(r.path);
+            query = o(r.query);
+        } else {
+            if r.authority.is_some() {
+                authority = o(r.authority);
+                path = remove_dot_segments(r.path);
+                query = o(r.query);
+            } else {
+                if r.path.is_empty() {
+                    path = b.path.to_string();
+                    query = if r.query.is_some() { o(r.query) } else { o(b.query) };
+                } else {
+                    if r.path.starts_with('/') {
+                        path = remove_dot_segments(r.path);
+                    } else {
+                        path = remove_dot_segments(&merge(&b, r.path));
+                    }
+                    query = o(r.query);
+                }
+                authority = o(b.authority);
+            }
+            scheme = b.scheme.unwrap_or("").to_string();
+        }
+        Target { scheme, authority, path, query, fragment: o(r.fragment) }
+    }
+    pub fn resolve(base: &str, reference: &str) -> String {
+        transform(base, reference).recompose()
+    }
+    pub fn has_dot_segment(path: &str) -> bool {
+        path.split('/').any(|s| s == "." || s == "..")
+    }
+}
+
+// =====================================================================================
+
+#[derive(Clone, Debug, Serialize, Deserialize)]
+pub enum Case {
+    /// validate one string (all validators), then use it as a base if accepted
+    Str(String),
+    /// a string and a one-character mutation of it (op 0 = delete, 1 = insert, 2 = replace)
+    Mut { orig: String, pos: u32, op: u8, ch: char },
+    /// resolve `rf` against `base` through every API
+    Pair { base: String, rf: String },
+    /// Namespace::new(ns) / get(suffix) / is_valid_suffixed_iri_ref
+    Ns { ns: String, suffix: String },
+    /// self-test of the reference implementation against the tables printed in RFC 3986
+    SelfTest,
+}
+
+pub struct C09;
+
+/// Characters used for mutations: every delimiter, both sides of every ucschar / iprivate range
+/// boundary, and characters that are excluded everywhere.
+pub fn mutation_chars() -> Vec<char> {
+    let mut v: Vec<char> = ":/?#[]@%.-+~_!$&'()*,;=vVaAfFgGzZ0123456789 <>\"{}|\\^`\t\n\u{7f}\u{80}\u{9f}\u{a0}é"
+        .chars()
+        .collect();
+    let bounds: &[(u32, u32)] = &[
+        (0xA0, 0xD7FF),
+        (0xE000, 0xF8FF),
+        (0xF900, 0xFDCF),
+        (0xFDF0, 0xFFEF),
+        (0x10000, 0x1FFFD),
+        (0x20000, 0x2FFFD),
+        (0x80000, 0x8FFFD),
+        (0xD0000, 0xDFFFD),
+        (0xE0000, 0xE0FFF),
+        (0xE1000, 0xEFFFD),
+        (0xF0000, 0xFFFFD),
+        (0x100000, 0x10FFFD),
+    ];
+    for (lo, hi) in bounds {
+        for c in [lo.wrapping_sub(1), *lo, *hi, hi + 1] {
+            if let Some(ch) = char::from_u32(c) {
+                v.push(ch);
+            }
+        }
+    }
+    v.push('\u{FFFD}');
+    v.push('\u{FFFE}');
+    v.push('\u{10FFFF}');
+    v
+}
+
+pub fn mutate(orig: &str, pos: u32, op: u8, ch: char) -> String {
+    let cs: Vec<char> = orig.chars().collect();
+    let mut out: Vec<char> = cs.clone();
+    match op % 3 {
+        0 => {
+            if !cs.is_empty() {
+                out.remove(pos as usize % cs.len());
+            }
+        }
+        1 => out.insert(pos as usize % (cs.len() + 1), ch),
+        _ => {
+            if !cs.is_empty() {
+                out[pos as usize % cs.len()] = ch;
+            } else {
+                out.push(ch);
+            }
+        }
+    }
+    out.into_iter().collect()
+}
+
+#[derive(Clone, Debug)]
+enum Piece {
+    T(&'static str),
+    R(&'static str),
+}
+use Piece::{R as PR, T as PT};
+
+/// Templates: sequences of literal text and grammar rules. The first group produces members of
+/// the productions by construction, the second group near misses.
+fn templates() -> Vec<Vec<Piece>> {
+    vec![
+        vec![PR("IRI")],
+        vec![PR("IRI")],
+        vec![PR("irelative-ref")],
+        vec![PR("irelative-ref")],
+        vec![PR("scheme"), PT("://"), PR("iauthority"), PR("ipath-abempty")],
+        vec![PR("scheme"), PT("://"), PR("iauthority"), PR("ipath-abempty"), PT("?"), PR("iquery"), PT("#"), PR("ifragment")],
+        vec![PT("http://["), PR("IPv6address"), PT("]"), PR("ipath-abempty")],
+        vec![PT("http://["), PR("IPv6address"), PT("]")],
+        vec![PT("//["), PR("IPv6address"), PT("]:"), PR("port"), PT("/")],
+        vec![PT("x://"), PR("iuserinfo"), PT("@["), PR("IPv6address"), PT("]:"), PR("port")],
+        vec![PT("http://["), PR("IPvFuture"), PT("]/")],
+        vec![PT("//["), PR("IPvFuture"), PT("]")],
+        vec![PT("http://"), PR("IPv4address"), PT("/")],
+        vec![PT("http://"), PR("IPv4address"), PT(":"), PR("port")],
+        vec![PT("http://"), PR("iuserinfo"), PT("@"), PR("ihost"), PT(":"), PR("port"), PR("ipath-abempty")],
+        vec![PT("//"), PR("iauthority"), PR("ipath-abempty")],
+        vec![PR("scheme"), PT(":"), PR("ipath-absolute")],
+        vec![PR("scheme"), PT(":"), PR("ipath-rootless")],
+        vec![PR("scheme"), PT(":"), PT("?"), PR("iquery")],
+        vec![PR("ipath-noscheme")],
+        vec![PR("ipath-absolute"), PT("?"), PR("iquery"), PT("#"), PR("ifragment")],
+        vec![PT("http://a/"), PR("isegment"), PT("/"), PR("isegment-nz"), PT("?"), PR("iquery")],
+        vec![PT("http://a/#"), PR("ifragment")],
+        vec![PT("http://"), PR("ireg-name"), PT("/")],
+        // ---- near misses
+        vec![PT("http://["), PR("gen:ipv6ish"), PT("]/")],
+        vec![PT("http://["), PR("gen:ipv6ish"), PT("]/")],
+        vec![PT("//["), PR("gen:ipv6ish"), PT("]")],
+        vec![PT("http://"), PR("gen:ipv4ish"), PT("/")],
+        vec![PT("http://["), PR("gen:ipv4ish"), PT("]/")],
+        vec![PT("http://[::"), PR("gen:ipv4ish"), PT("]/")],
+        vec![PT("http://[::"), PR("gen:ipv4near"), PT("]/")],
+        vec![PT("//[1:2:3:4:5:6:"), PR("gen:ipv4near"), PT("]")],
+        vec![PT("http://[1::2:"), PR("gen:ipv4near"), PT("]:1/")],
+        vec![PT("http://"), PR("gen:ipv4near"), PT("/")],
+        vec![PR("scheme"), PT("://"), PR("ihost"), PT(":"), PR("port"), PR("isegment"), PT("/")],
+        vec![PR("scheme"), PT("://"), PR("gen:junkseg"), PT("/"), PR("isegment")],
+        vec![PR("scheme"), PT(":"), PT("//"), PR("iuserinfo"), PT("@"), PR("iuserinfo"), PT("@"), PR("ireg-name")],
+        vec![PR("scheme"), PT(":/"), PR("ipath-absolute")],
+        vec![PR("ipath-absolute"), PR("ipath-absolute")],
+        vec![PT("//"), PR("ihost"), PT(":"), PR("port"), PR("isegment-nz")],
+        vec![PR("isegment-nz"), PR("ipath-abempty")],
+        vec![PR("gen:junkseg"), PT("?"), PR("gen:junkseg"), PT("#"), PR("gen:junkseg")],
+        vec![PT("http://a/"), PR("gen:pctish"), PR("isegment")],
+        vec![PR("scheme"), PR("ipath-rootless")],
+        vec![PR("DIGIT"), PR("scheme"), PT(":"), PR("ipath-rootless")],
+        vec![PT("http://a/?"), PR("iquery"), PT("#"), PR("iquery")],
+    ]
+}
+
+fn expand(template: usize, tape: &[u32]) -> String {
+    let ts = templates();
+    let t = &ts[template % ts.len()];
+    let mut tp = rfc::Tape { t: tape, i: 0 };
+    let mut out = String::new();
+    for p in t {
+        match p {
+            PT(s) => out.push_str(s),
+            PR(r) => rfc::derive_rule(r, &mut tp, &mut out),
+        }
+    }
+    out
+}
+
+fn gen_string() -> BoxedStrategy<String> {
+    let n = templates().len();
+    (0..n, prop::collection::vec(any::<u32>(), 8..96))
+        .prop_map(|(t, tape)| expand(t, &tape))
+        .boxed()
+}
+
+fn seg_pool_base() -> Vec<&'static str> {
+    vec!["a", "b", "c", "", ".", "..", "d:e", "é", "%2E", "x.y", "..."]
+}
+fn seg_pool_ref() -> Vec<&'static str> {
+    vec!["..", ".", "a", "g", "", "b:c", "...", "..a", ".a", "a.", "%2e%2e", "é", ";x", "g;x=1"]
+}
+
+fn structured_base() -> BoxedStrategy<String> {
+    (
+        pick_str(&["http", "a", "x-y.z+1", "file", "urn"]),
+        pick(vec![None, Some(""), Some("a"), Some("u@h:80"), Some("[::1]"), Some("é.org")]),
+        any::<bool>(),
+        prop::collection::vec(pick(seg_pool_base()), 0..6),
+        pick(vec![None, Some("q"), Some("a/b?c"), Some(""), Some("x=../y")]),
+        pick(vec![None, Some("f"), Some("")]),
+    )
+        .prop_map(|(s, auth, rooted, segs, q, f)| {
+            let mut out = format!("{s}:");
+            let mut path = segs.join("/");
+            if let Some(a) = auth {
+                out.push_str("//");
+                out.push_str(a);
+                if !segs.is_empty() {
+                    path = format!("/{path}");
+                }
+            } else if rooted && !path.starts_with('/') {
+                path = format!("/{path}");
+            }
+            out.push_str(&path);
+            if let Some(q) = q {
+                out.push('?');
+                out.push_str(q);
+            }
+            if let Some(f) = f {
+                out.push('#');
+                out.push_str(f);
+            }
+            out
+        })
+        .boxed()
+}
+
+fn structured_ref() -> BoxedStrategy<String> {
+    (
+        pick(vec![None, None, None, None, None, None, None, Some("http"), Some("a"), Some("x")]),
+        pick(vec![None, None, None, None, None, None, None, None, Some("h"), Some(""), Some("[::2]:8")]),
+        0..4u8,
+        prop::collection::vec(pick(seg_pool_ref()), 0..6),
+        pick(vec![None, None, Some("y"), Some(""), Some("a/../b")]),
+        pick(vec![None, None, Some("s"), Some(""), Some("s/../x")]),
+    )
+        .prop_map(|(s, auth, lead, segs, q, f)| {
+            let mut out = String::new();
+            if let Some(s) = s {
+                out.push_str(s);
+                out.push(':');
+            }
+            let mut path = segs.join("/");
+            if let Some(a) = auth {
+                out.push_str("//");
+                out.push_str(a);
+                if !segs.is_empty() {
+                    path = format!("/{path}");
+                }
+            } else {
+                match lead {
+                    0 => path = format!("/{path}"),
+                    1 if !path.is_empty() => path = format!("./{path}"),
+                    _ => {}
+                }
+            }
+            out.push_str(&path);
+            if let Some(q) = q {
+                out.push('?');
+                out.push_str(q);
+            }
+            if let Some(f) = f {
+                out.push('#');
+                out.push_str(f);
+            }
+            out
+        })
+        .boxed()
+}
+
+/// Find the content of the first `[...]` (IP literal candidate).
+fn bracket_content(s: &str) -> Option<&str> {
+    let i = s.find('[')?;
+    let rest = &s[i + 1..];
+    Some(match rest.find(']') {
+        Some(j) => &rest[..j],
+        None => rest,
+    })
+}
+
+/// Stable key describing which part of the *input* is the likely trigger of a validator disagreement.
+fn trigger(s: &str) -> &'static str {
+    if let Some(inner) = bracket_content(s) {
+        if inner.starts_with(['v', 'V']) {
+            return if inner.starts_with('V') { "ipvfuture-uppercase-v" } else { "ipvfuture" };
+        }
+        if inner.contains("::") {
+            return "ipv6-elision";
+        }
+        return "ip-literal";
+    }
+    // after the scheme (if any)
+    let rest = match s.find([':', '/', '?', '#']) {
+        Some(i) if i > 0 && s[i..].starts_with(':') && rfc::matches("scheme", &s[..i]) => &s[i + 1..],
+        _ => s,
+    };
+    if rest.starts_with("//") {
+        "double-slash-not-authority"
+    } else if s.contains('%') {
+        "percent"
+    } else if !s.is_ascii() {
+        "non-ascii"
+    } else {
+        "other"
+    }
+}
+
+struct Verdict {
+    abs: bool,
+    rel: bool,
+}
+fn reference_verdict(s: &str) -> Verdict {
+    Verdict { abs: rfc::is_iri(s), rel: rfc::is_relative_ref(s) }
+}
+
+fn short(s: &str) -> String {
+    format!("{:?}", s)
+}
+
+/// Compare every validator with the reference; then exercise the base constructors. Returns
+/// (reference verdict, sophia accepts as Iri, sophia accepts as IriRef)
+fn check_string(s: &str, ctx: &mut Ctx) -> (Verdict, bool, bool) {
+    use sophia_iri::resolve::{BaseIri, BaseIriRef};
+    use sophia_iri::{is_absolute_iri_ref, is_relative_iri_ref, is_valid_iri_ref, Iri, IriRef};
+    let v = reference_verdict(s);
+    let any = v.abs || v.rel;
+    let tr = trigger(s);
+    let got_abs = is_absolute_iri_ref(s);
+    let got_rel = is_relative_iri_ref(s);
+    let got_any = is_valid_iri_ref(s);
+    let iri_ok = Iri::new(s).is_ok();
+    let iriref_ok = IriRef::new(s).is_ok();
+    let iri_ok_s = Iri::new(s.to_string()).is_ok();
+    let mut mismatch = vec![];
+    if got_abs != v.abs {
+        mismatch.push(format!("is_absolute_iri_ref={got_abs} but RFC 3987 IRI={}", v.abs));
+    }
+    if got_rel != v.rel {
+        mismatch.push(format!("is_relative_iri_ref={got_rel} but RFC 3987 irelative-ref={}", v.rel));
+    }
+    if got_any != any {
+        mismatch.push(format!("is_valid_iri_ref={got_any} but RFC 3987 IRI-reference={any}"));
+    }
+    if iri_ok != v.abs || iri_ok_s != v.abs {
+        mismatch.push(format!("Iri::new ok={iri_ok}/{iri_ok_s} but RFC 3987 IRI={}", v.abs));
+    }
+    if iriref_ok != any {
+        mismatch.push(format!("IriRef::new ok={iriref_ok} but RFC 3987 IRI-reference={any}"));
+    }
+    // every accepted value can be used as a base
+    let mut base_problems = vec![];
+    if iri_ok {
+        match catch(|| {
+            let i = Iri::new(s).unwrap();
+            let b = i.as_base();
+            b.as_str().len()
+        }) {
+            Ok(n) if n == s.len() => {}
+            Ok(n) => base_problems.push(format!("Iri::as_base() changed the string (len {n})")),
+            Err(e) => base_problems.push(format!("Iri::as_base() panicked: {e}")),
+        }
+        if let Err(e) = catch(|| Iri::new(s.to_string()).unwrap().to_base().into_inner()) {
+            base_problems.push(format!("Iri::to_base() panicked: {e}"));
+        }
+        if let Err(e) = BaseIri::new(s) {
+            base_problems.push(format!("BaseIri::new rejects it: {e}"));
+        }
+    }
+    if iriref_ok {
+        if let Err(e) = catch(|| {
+            let i = IriRef::new(s).unwrap();
+            let b = i.as_base();
+            b.as_str().len()
+        }) {
+            base_problems.push(format!("IriRef::as_base() panicked: {e}"));
+        }
+        if let Err(e) = catch(|| {
+            let b = IriRef::new(s.to_string()).unwrap().to_base();
+            b.as_str().len()
+        }) {
+            base_problems.push(format!("IriRef::to_base() panicked: {e}"));
+        }
+        if let Err(e) = BaseIriRef::new(s) {
+            base_problems.push(format!("BaseIriRef::new rejects it: {e}"));
+        }
+    }
+    if !mismatch.is_empty() {
+        let dir = if (got_any && !any) || (got_abs && !v.abs) || (got_rel && !v.rel) || (iri_ok && !v.abs) {
+            "accepts-invalid"
+        } else {
+            "rejects-valid"
+        };
+        ctx.fail(
+            format!("validate/{tr}/{dir}"),
+            format!("string {}: {}{}", short(s), mismatch.join("; "), if base_problems.is_empty() { String::new() } else { format!("; consequences: {}", base_problems.join("; ")) }),
+        );
+    } else if !base_problems.is_empty() {
+        ctx.fail(
+            format!("base/{tr}"),
+            format!("string {} is accepted (and is valid per RFC 3987) but: {}", short(s), base_problems.join("; ")),
+        );
+    }
+    (v, iri_ok, iriref_ok)
+}
+
+fn interesting(s: &str) -> bool {
+    s.contains('[') || s.contains('%') || !s.is_ascii()
+}
+
+fn classify_string(s: &str, v: &Verdict, ctx: &mut Ctx) {
+    ctx.class(if v.abs {
+        "str:IRI"
+    } else if v.rel {
+        "str:irelative-ref"
+    } else {
+        "str:invalid"
+    });
+    if v.abs || v.rel {
+        let p = rfc::split(s);
+        if let Some(a) = p.authority {
+            ctx.class("valid:authority");
+            if let Some(inner) = bracket_content(a) {
+                if inner.starts_with(['v', 'V']) {
+                    ctx.class("valid:ipvfuture");
+                } else {
+                    // which IPv6 alternative (by what follows/precedes "::")
+                    let label = match inner.find("::") {
+                        None => "valid:ipv6-full".to_string(),
+                        Some(i) => {
+                            let before = if i == 0 { 0 } else { inner[..i].split(':').count() };
+                            let after_s = &inner[i + 2..];
+                            let after = if after_s.is_empty() { 0 } else { after_s.split(':').count() };
+                            format!("valid:ipv6-{before}::{after}{}", if after_s.contains('.') { "+v4" } else { "" })
+                        }
+                    };
+                    ctx.class(label);
+                }
+            } else if rfc::matches("IPv4address", a.rsplit('@').next().unwrap_or("").split(':').next().unwrap_or("")) {
+                ctx.class("valid:ipv4");
+            }
+            if a.contains('@') {
+                ctx.class("valid:userinfo");
+            }
+            if a.rsplit(']').next().unwrap_or("").rsplit('@').next().unwrap_or("").contains(':') {
+                ctx.class("valid:port");
+            }
+        }
+        if p.path.contains("//") || (p.authority.is_some() && p.path.starts_with("//")) {
+            ctx.class("valid:empty-segment");
+        }
+        if s.contains('%') {
+            ctx.class("valid:pct");
+        }
+        if !s.is_ascii() {
+            ctx.class("valid:non-ascii");
+        }
+        if s.chars().any(|c| rfc::matches("iprivate", &c.to_string())) {
+            ctx.class("valid:iprivate");
+        }
+    }
+}
+
+/// names of the pair classes used for both statistics and signatures
+fn pair_kind(base: &str, rf: &str) -> &'static str {
+    let b = rfc::split(base);
+    let r = rfc::split(rf);
+    if r.scheme.is_some() {
+        if rfc::has_dot_segment(r.path) {
+            "ref-with-scheme-has-dot-segments"
+        } else {
+            "ref-with-scheme"
+        }
+    } else if r.authority.is_some() {
+        if rfc::has_dot_segment(r.path) {
+            "ref-with-authority-has-dot-segments"
+        } else {
+            "ref-with-authority"
+        }
+    } else if r.path.is_empty() {
+        "ref-empty-path"
+    } else {
+        let t = rfc::transform(base, rf);
+        let absolute_ref = r.path.starts_with('/');
+        if t.authority.is_none() {
+            // the resolver refuses a path that starts with "//" when there is no authority, and it
+            // applies that test after every segment: the trigger is a path that starts with "//"
+            // at the end *or* once its leading dot segments are removed
+            let merged = if absolute_ref { r.path.to_string() } else { rfc::merge(&b, r.path) };
+            let mut m = merged.as_str();
+            loop {
+                if let Some(x) = m.strip_prefix("./").or_else(|| m.strip_prefix("../")) {
+                    m = x;
+                } else if m.starts_with("/./") {
+                    m = &m[2..];
+                } else if m.starts_with("/../") {
+                    m = &m[3..];
+                } else {
+                    break;
+                }
+            }
+            if t.path.starts_with("//") || m.starts_with("//") {
+                return "result-path-starts-with-two-slashes";
+            }
+        }
+        let dir = match b.path.rfind('/') {
+            Some(i) => &b.path[..=i],
+            None => "",
+        };
+        let merged = if absolute_ref { r.path.to_string() } else { rfc::merge(&b, r.path) };
+        if !absolute_ref && rfc::has_dot_segment(dir) {
+            "merge-base-path-has-dot-segments"
+        } else if b.authority.is_none() && dotdot_reaches_root(&merged) {
+            "no-authority-dotdot-reaches-root"
+        } else if absolute_ref {
+            "ref-absolute-path"
+        } else if b.authority.is_none() {
+            "merge-no-authority"
+        } else {
+            "merge"
+        }
+    }
+}
+
+/// Does some ".." segment of `path` pop the first segment (or hit the root)?
+fn dotdot_reaches_root(path: &str) -> bool {
+    let mut level = 0i64;
+    let p = path.strip_prefix('/').unwrap_or(path);
+    for s in p.split('/') {
+        match s {
+            ".." => {
+                if level <= 1 {
+                    return true;
+                }
+                level -= 1;
+            }
+            "." => {}
+            _ => level += 1,
+        }
+    }
+    false
+}
+
+fn check_pair(base: &str, rf: &str, ctx: &mut Ctx) {
+    use sophia_iri::resolve::{BaseIri, BaseIriRef};
+    use sophia_iri::{Iri, IriRef};
+    let (vb, b_ok, _) = check_string(base, ctx);
+    let (vr, _, r_ok) = check_string(rf, ctx);
+    if !(vb.abs && (vr.abs || vr.rel)) {
+        ctx.class("pair:skipped-not-in-domain");
+        return;
+    }
+    if !(b_ok && r_ok) {
+        // already reported by check_string
+        ctx.class("pair:skipped-validator-disagrees");
+        return;
+    }
+    let kind = pair_kind(base, rf);
+    ctx.class(format!("pair:{kind}"));
+    ctx.nontrivial();
+    let expected = rfc::resolve(base, rf);
+    let exp_valid = rfc::is_iri(&expected);
+    if !exp_valid {
+        ctx.class("pair:rfc-result-not-an-IRI");
+        if std::env::var_os("C09_DEBUG").is_some() {
+            eprintln!("rfc-result-not-an-IRI: base {base:?} ref {rf:?} -> {expected:?}");
+        }
+    }
+    let mut problems: Vec<String> = vec![];
+    let mut record = |name: &str, got: Result<Result<String, String>, String>| match got {
+        Ok(Ok(g)) => {
+            if g != expected {
+                problems.push(format!("{name} = {} (expected {})", short(&g), short(&expected)));
+            } else if !rfc::is_iri(&g) || Iri::new(g.as_str()).is_err() {
+                problems.push(format!("{name} = {} is not an accepted absolute IRI", short(&g)));
+            }
+        }
+        Ok(Err(e)) => problems.push(format!("{name} returned Err({e}) (expected {})", short(&expected))),
+        Err(p) => problems.push(format!("{name} panicked: {p} (expected {})", short(&expected))),
+    };
+    // 1. typed resolve (Iri x IriRef -> Iri<String>)
+    record(
+        "Iri::resolve(IriRef)",
+        catch(|| Ok(Iri::new(base).unwrap().resolve(IriRef::new(rf).unwrap()).unwrap())),
+    );
+    // 2. BaseIri (borrowed) x &str -> Result
+    record(
+        "Iri::as_base().resolve(&str)",
+        catch(|| Iri::new(base).unwrap().as_base().resolve(rf).map(|i| i.unwrap()).map_err(|e| e.to_string())),
+    );
+    // 3. resolve_into, typed
+    record(
+        "BaseIri::resolve_into(IriRef)",
+        catch(|| {
+            let b = BaseIri::new(base.to_string()).map_err(|e| e.to_string())?;
+            let mut buf = String::new();
+            let r = b.resolve_into(IriRef::new(rf).unwrap(), &mut buf);
+            Ok(r.unwrap().to_string())
+        }),
+    );
+    // 4. resolve_into, &str
+    record(
+        "Iri::to_base().resolve_into(&str)",
+        catch(|| {
+            let b = Iri::new(base.to_string()).unwrap().to_base();
+            let mut buf = String::from("junk");
+            buf.clear();
+            let r = b.resolve_into(rf, &mut buf).map(|i| i.unwrap().to_string()).map_err(|e| e.to_string());
+            r
+        }),
+    );
+    // 5. through IriRef / BaseIriRef
+    record(
+        "IriRef::resolve(IriRef)",
+        catch(|| Ok(IriRef::new(base).unwrap().resolve(IriRef::new(rf).unwrap()).unwrap())),
+    );
+    record(
+        "BaseIriRef::resolve(&str)",
+        catch(|| {
+            let b = BaseIriRef::new(base).map_err(|e| e.to_string())?;
+            b.resolve(rf).map(|i| i.unwrap()).map_err(|e| e.to_string())
+        }),
+    );
+    // 6. a typed absolute reference (Iri) as the reference
+    if vr.abs {
+        record(
+            "BaseIri::resolve(Iri)",
+            catch(|| Ok(Iri::new(base).unwrap().as_base().resolve(Iri::new(rf).unwrap()).unwrap())),
+        );
+    }
+    if !problems.is_empty() {
+        ctx.fail(
+            format!("resolve/{kind}"),
+            format!("base {} ref {}: {}", short(base), short(rf), problems.join("; ")),
+        );
+    }
+}
+
+fn check_ns(ns: &str, suffix: &str, ctx: &mut Ctx) {
+    use sophia_api::ns::Namespace;
+    use sophia_iri::is_valid_suffixed_iri_ref;
+    let whole = format!("{ns}{suffix}");
+    let exp_ns = rfc::is_iri_reference(ns);
+    let exp_whole = rfc::is_iri_reference(&whole);
+    ctx.class(match (exp_ns, exp_whole) {
+        (true, true) => "ns:valid+valid",
+        (true, false) => "ns:valid+invalid",
+        (false, true) => "ns:invalid+valid",
+        (false, false) => "ns:invalid+invalid",
+    });
+    if exp_ns != exp_whole || interesting(&whole) {
+        ctx.nontrivial();
+    }
+    let tr = trigger(&whole);
+    let mut problems = vec![];
+    let got = is_valid_suffixed_iri_ref(ns, Some(suffix));
+    if got != exp_whole {
+        problems.push(format!("is_valid_suffixed_iri_ref(ns, Some(suffix)) = {got}, RFC 3987 IRI-reference(ns+suffix) = {exp_whole}"));
+    }
+    let got_none = is_valid_suffixed_iri_ref(&whole, None);
+    if got_none != exp_whole {
+        problems.push(format!("is_valid_suffixed_iri_ref(ns+suffix, None) = {got_none}, expected {exp_whole}"));
+    }
+    match Namespace::new(ns) {
+        Ok(n) => {
+            if !exp_ns {
+                problems.push(format!("Namespace::new accepts {}", short(ns)));
+            }
+            let g = n.get(suffix).is_ok();
+            if g != exp_whole {
+                problems.push(format!("Namespace::get ok = {g}, RFC 3987 IRI-reference(ns+suffix) = {exp_whole}"));
+            }
+        }
+        Err(_) => {
+            if exp_ns {
+                problems.push(format!("Namespace::new rejects {}", short(ns)));
+            }
+        }
+    }
+    if !problems.is_empty() {
+        let dir = if problems.iter().any(|p| p.contains("= true, ") || p.contains("accepts")) { "accepts-invalid" } else { "rejects-valid" };
+        ctx.fail(format!("validate/{tr}/{dir}"), format!("ns {} suffix {}: {}", short(ns), short(suffix), problems.join("; ")));
+    }
+}
+
+fn self_test(ctx: &mut Ctx) {
+    // RFC 3986 section 5.4.1 and 5.4.2 (strict parser), base http://a/b/c/d;p?q
+    let base = "http://a/b/c/d;p?q";
+    let table: &[(&str, &str)] = &[
+        ("g:h", "g:h"),
+        ("g", "http://a/b/c/g"),
+        ("./g", "http://a/b/c/g"),
+        ("g/", "http://a/b/c/g/"),
+        ("/g", "http://a/g"),
+        ("//g", "http://g"),
+        ("?y", "http://a/b/c/d;p?y"),
+        ("g?y", "http://a/b/c/g?y"),
+        ("#s", "http://a/b/c/d;p?q#s"),
+        ("g#s", "http://a/b/c/g#s"),
+        ("g?y#s", "http://a/b/c/g?y#s"),
+        (";x", "http://a/b/c/;x"),
+        ("g;x", "http://a/b/c/g;x"),
+        ("g;x?y#s", "http://a/b/c/g;x?y#s"),
+        ("", "http://a/b/c/d;p?q"),
+        (".", "http://a/b/c/"),
+        ("./", "http://a/b/c/"),
+        ("..", "http://a/b/"),
+        ("../", "http://a/b/"),
+        ("../g", "http://a/b/g"),
+        ("../..", "http://a/"),
+        ("../../", "http://a/"),
+        ("../../g", "http://a/g"),
+        ("../../../g", "http://a/g"),
+        ("../../../../g", "http://a/g"),
+        ("/./g", "http://a/g"),
+        ("/../g", "http://a/g"),
+        ("g.", "http://a/b/c/g."),
+        (".g", "http://a/b/c/.g"),
+        ("g..", "http://a/b/c/g.."),
+        ("..g", "http://a/b/c/..g"),
+        ("./../g", "http://a/b/g"),
+        ("./g/.", "http://a/b/c/g/"),
+        ("g/./h", "http://a/b/c/g/h"),
+        ("g/../h", "http://a/b/c/h"),
+        ("g;x=1/./y", "http://a/b/c/g;x=1/y"),
+        ("g;x=1/../y", "http://a/b/c/y"),
+        ("g?y/./x", "http://a/b/c/g?y/./x"),
+        ("g?y/../x", "http://a/b/c/g?y/../x"),
+        ("g#s/./x", "http://a/b/c/g#s/./x"),
+        ("g#s/../x", "http://a/b/c/g#s/../x"),
+        ("http:g", "http:g"),
+    ];
+    for (r, exp) in table {
+        let got = rfc::resolve(base, r);
+        if got != *exp {
+            ctx.fail("harness/self-test", format!("reference resolver: {r:?} -> {got:?}, RFC 3986 5.4 says {exp:?}"));
+        }
+    }
+    // 5.2.4 worked examples
+    for (i, o) in [("/a/b/c/./../../g", "/a/g"), ("mid/content=5/../6", "mid/6")] {
+        let got = rfc::remove_dot_segments(i);
+        if got != o {
+            ctx.fail("harness/self-test", format!("remove_dot_segments({i:?}) = {got:?}, RFC says {o:?}"));
+        }
+    }
+    // recogniser: examples from RFC 3986 section 1.1.2, RFC 4291 / RFC 5952 textual forms, RFC 3987
+    let valid_iri = [
+        "ftp://ftp.is.co.za/rfc/rfc1808.txt",
+        "http://www.ietf.org/rfc/rfc2396.txt",
+        "ldap://[2001:db8::7]/c=GB?objectClass?one",
+        "mailto:John.Doe@example.com",
+        "news:comp.infosystems.www.servers.unix",
+        "tel:+1-816-555-1212",
+        "telnet://192.0.2.16:80/",
+        "urn:oasis:names:specification:docbook:dtd:xml:4.1.2",
+        "http://[ABCD:EF01:2345:6789:ABCD:EF01:2345:6789]/",
+        "http://[2001:DB8:0:0:8:800:200C:417A]/",
+        "http://[FF01::101]/",
+        "http://[::1]/",
+        "http://[::]/",
+        "http://[1::]/",
+        "http://[1:2:3:4:5:6:7::]/",
+        "http://[::2:3:4:5:6:7:8]/",
+        "http://[1:2::3:4:5:6:7]/",
+        "http://[1:2:3:4:5:6::8]/",
+        "http://[0:0:0:0:0:0:13.1.68.3]/",
+        "http://[::13.1.68.3]/",
+        "http://[::FFFF:129.144.52.38]:80/index.html",
+        "http://[1:2:3:4:5::129.144.52.38]/",
+        "http://[v7.a:b]/",
+        "http://[V7.a:b]/",
+        "http://r\u{E9}sum\u{E9}.example.org",
+        "http://example.org/?\u{E000}",
+        "a:",
+        "a:/",
+        "a://",
+        "a:///",
+        "a://@:",
+        "a://@:/",
+        "http://256.1.1.1/",
+        "http://1.2.3/",
+        "http://a/%41%ff",
+    ];
+    for s in valid_iri {
+        if !rfc::is_iri(s) || rfc::is_relative_ref(s) {
+            ctx.fail("harness/self-test", format!("recogniser: {s:?} should be an IRI (and not a relative reference)"));
+        }
+    }
+    let invalid = [
+        "http://[1:2:3:4:5:6:7]/",
+        "http://[1:2:3:4:5:6:7:8:9]/",
+        "http://[1:2:3:4:5:6:7::8]/",
+        "http://[:1::]/",
+        "http://[1:::2]/",
+        "http://[1::2::3]/",
+        "http://[12345::]/",
+        "http://[::1.2.3.256]/",
+        "http://[::1.2.3]/",
+        "http://[1.2.3.4::]/",
+        "http://[::1.2.3.4:5]/",
+        "http://[1:2:3:4:5:6::1.2.3.4]/",
+        "http://[v.a]/",
+        "http://[v1.]/",
+        "http://[v1g.a]/",
+        "http://[::1/",
+        "http://a:80x/",
+        "a://@@",
+        "http://a b/",
+        "http://a/%4",
+        "http://a/%4g",
+        "http://a/<",
+        "http://a/\u{E000}",
+        "http://a/#\u{E000}",
+        "http://a/#a#b",
+        "http://\u{FFF0}/",
+        "1a:b",
+        ":a",
+        "",
+        " http://a/",
+    ];
+    for s in invalid {
+        if rfc::is_iri(s) {
+            ctx.fail("harness/self-test", format!("recogniser: {s:?} should not be an IRI"));
+        }
+    }
+    let valid_rel = ["", "a", "a/b:c", "./a:b", "//a", "//a:80/x", "/", "/a//b", "?q", "#f", "a%20b", "//[::1]", "//@", "..", "\u{E9}", "?\u{E000}", "a@b/c:d"];
+    for s in valid_rel {
+        if !rfc::is_relative_ref(s) || rfc::is_iri(s) {
+            ctx.fail("harness/self-test", format!("recogniser: {s:?} should be a relative reference (and not an IRI)"));
+        }
+    }
+    let invalid_ref = ["a:b c", ":a", "1:a/b", "//a:80x/", "//@@", "a b", "%", "%G0", "/\u{E000}", "#\u{E000}", "//[::1", "//[1:2]", "a#b#c", "[a]", "a/[b]"];
+    for s in invalid_ref {
+        if rfc::is_iri_reference(s) {
+            ctx.fail("harness/self-test", format!("recogniser: {s:?} should not be an IRI reference"));
+        }
+    }
+    // Appendix B split
+    let p = rfc::split("http://www.ics.uci.edu/pub/ietf/uri/#Related");
+    if p.scheme != Some("http") || p.authority != Some("www.ics.uci.edu") || p.path != "/pub/ietf/uri/" || p.query.is_some() || p.fragment != Some("Related") {
+        ctx.fail("harness/self-test", format!("split: {p:?}"));
+    }
+    ctx.nontrivial();
+}
+
+impl Check for C09 {
+    type Case = Case;
+    const ID: &'static str = "C09";
+    fn rule() -> String {
+        "Str/Mut: a string (grammar-derived member of an RFC 3987 production, a near miss, or a one-character mutation of either) is non-trivial when it contains an IP literal, a percent sign or a non-ASCII character, or when the mutation flips the reference verdict; Pair: (base, reference) pairs where both are accepted by the reference and by sophia (all non-trivial); Ns: namespace/suffix splits where prefix and whole differ in validity or the whole is 'interesting' as above. Distinct by hash of the case.".into()
+    }
+    fn assumptions() -> Vec<String> {
+        vec![
+            "ABNF quoted strings are case-insensitive (RFC 5234 2.3): \"v\" in IPvFuture also matches 'V', HEXDIG matches a-f".into(),
+            "the reference recogniser explores all alternatives (set of end positions), so it decides membership in the language of the ABNF, not first-match parsing".into(),
+            "resolution oracle = RFC 3986 5.2.2 strict algorithm incl. remove_dot_segments on references with a scheme/authority and over the merged base path".into(),
+        ]
+    }
+    fn cases(tier: Tier) -> u32 {
+        tier.pick(800_000, 24_000_000)
+    }
+    fn fixed_cases(_tier: Tier, _seed: u64) -> Vec<Case> {
+        let mut v = vec![Case::SelfTest];
+        // the boundary code points of every range, in every component
+        for c in mutation_chars() {
+            for t in ["http://a{}b/", "http://a/{}", "http://a/?{}", "http://a/#{}", "http://u{}@h/", "{}", "a{}:b", "//{}", "?{}", "#{}", "http://[v1.{}]/", "http://a:8{}/"] {
+                v.push(Case::Str(t.replace("{}", &c.to_string())));
+            }
+        }
+        v
+    }
+    fn strategy(_tier: Tier) -> BoxedStrategy<Case> {
+        let chars = mutation_chars();
+        let s = gen_string();
+        let mutant = (s.clone(), any::<u32>(), 0..3u8, pick(chars.clone()))
+            .prop_map(|(orig, pos, op, ch)| Case::Mut { orig, pos, op, ch });
+        let base = prop_oneof![3 => structured_base(), 2 => gen_string()];
+        let rf = prop_oneof![4 => structured_ref(), 2 => gen_string()];
+        let pair = (base, rf).prop_map(|(base, rf)| Case::Pair { base, rf });
+        let ns = (prop_oneof![2 => gen_string(), 1 => structured_base()], any::<u32>(), prop::option::of((any::<u32>(), 0..3u8, pick(chars))))
+            .prop_map(|(s, cut, m)| {
+                let s = match m {
+                    Some((pos, op, ch)) => mutate(&s, pos, op, ch),
+                    None => s,
+                };
+                let cs: Vec<char> = s.chars().collect();
+                let k = cut as usize % (cs.len() + 1);
+                Case::Ns { ns: cs[..k].iter().collect(), suffix: cs[k..].iter().collect() }
+            });
+        prop_oneof![
+            3 => s.prop_map(Case::Str),
+            4 => mutant,
+            4 => pair,
+            1 => ns,
+        ]
+        .boxed()
+    }
+    fn run(case: &Case, ctx: &mut Ctx) {
+        match case {
+            Case::Str(s) => {
+                let (v, ..) = check_string(s, ctx);
+                classify_string(s, &v, ctx);
+                if interesting(s) {
+                    ctx.nontrivial();
+                }
+            }
+            Case::Mut { orig, pos, op, ch } => {
+                let m = mutate(orig, *pos, *op, *ch);
+                let (v0, ..) = check_string(orig, ctx);
+                let (v1, ..) = check_string(&m, ctx);
+                classify_string(&m, &v1, ctx);
+                let flipped = v0.abs != v1.abs || v0.rel != v1.rel;
+                ctx.class(match (v0.abs || v0.rel, v1.abs || v1.rel) {
+                    (true, true) => "mut:valid->valid",
+                    (true, false) => "mut:valid->invalid",
+                    (false, true) => "mut:invalid->valid",
+                    (false, false) => "mut:invalid->invalid",
+                });
+                if flipped {
+                    ctx.class("mut:verdict-flipped");
+                }
+                if flipped || interesting(&m) {
+                    ctx.nontrivial();
+                }
+            }
+            Case::Pair { base, rf } => check_pair(base, rf, ctx),
+            Case::Ns { ns, suffix } => check_ns(ns, suffix, ctx),
+            Case::SelfTest => self_test(ctx),
+        }
+    }
+    fn show(case: &Case) -> Value {
+        match case {
+            Case::Mut { orig, pos, op, ch } => json!({"Mut": {"orig": orig, "mutant": mutate(orig, *pos, *op, *ch)}}),
+            other => serde_json::to_value(other).unwrap_or(Value::Null),
+        }
+    }
+}
+
+pub fn main(opts: &Opts) -> i32 {
+    drive::<C09>(opts)
 }
 pub fn worker(_args: &[String]) -> i32 {
     2
